@@ -6,6 +6,9 @@
 import Gzx.Driver.QRTables
 import Gzx.Proofs.QRTablesWF
 import Gzx.Ref.QRPack
+import Gzx.Proofs.QRCompRead
+import Gzx.Proofs.QRCompGF
+import Gzx.Driver.C01
 namespace Gzx.Obligations.C01
 open Gzx Gzx.QRDec
 
@@ -58,5 +61,14 @@ theorem mask_kernels_match :
       Gen.QRMask.decMask_4 i j == maskBit 4 i j && Gen.QRMask.decMask_5 i j == maskBit 5 i j &&
       Gen.QRMask.decMask_6 i j == maskBit 6 i j && Gen.QRMask.decMask_7 i j == maskBit 7 i j)) = true := by
   decide +kernel
+
+/-- the tables regenerated from /repo (formatInfoDecodeLookup, VERSION_DECODE_INFO, VERSIONS) are those of
+    ISO/IEC 18004 as the reference construction computes them — the table hypothesis `TablesConform T` of
+    `Properties.C01.qr_roundtrip_*` and `Properties.C05.qr_tolerates_block_errors` -/
+theorem tables_conform : QRComp.TablesConform QRTables.tables := by decide +kernel
+
+/-- the executable decoder model that the `c01`/`c05` suites compare with the Go decoder uses exactly the
+    tables and the Reed-Solomon decoder the theorems talk about -/
+theorem driver_rs_is_rsQR : Gzx.Driver.C01.rs = QRComp.rsQR ∧ Gzx.Driver.C01.T = QRTables.tables := ⟨rfl, rfl⟩
 
 end Gzx.Obligations.C01
